@@ -1,7 +1,7 @@
 #!/bin/bash
 # usage: verify_seed.sh <ID> <variant>   (uses worktree /tmp/wt/<ID>, inputs /tmp/mut/<ID>/patch_<v>.diff + demo_<v>.cpp)
 # confirms: patch applies to current /repo HEAD; suite passes with the patch; demo exits 0 without and !=0 with the patch.
-ID=$1; V=$2; W=/tmp/wt/$ID; M=/tmp/mut/$ID; L=$M/verify_$V.log
+ID=$1; V=$2; W=/tmp/wt/$ID; M=${MUT:-/tmp/mut}/$ID; L=$M/verify_$V.log
 exec > $L 2>&1
 set -x
 git -C $W checkout -q -- . ; git -C $W checkout -q --detach main || exit 9
